@@ -289,15 +289,31 @@ class HeapFn(cxx2gal.LoopFn):
                     x = self.inner(x)[0]
                 con = "HFreeRec" if self.coqtype_safe(qual(x)) == "hptr" else "HFreeBuf"
                 return self.E(x, lambda p: self.E(inn[2], lambda sz: "(let evs := evs ++ [%s %s %s] in %s)" % (con, p, sz, k("0"))))
-            if isinstance(spec0, dict) and spec0.get("event") and spec0.get("args"):
-                # the event carries the values of the call's arguments; the call yields spec["value"]
+            if isinstance(spec0, dict) and spec0.get("recv_field"):
+                # an accessor of a modelled record: the call is the receiver's field
+                rec, fld = spec0["recv_field"]
+                off, ft = self.field_offset(rec, fld)
+                ld = "hload_ptr" if self.is_rec_ptr(ft) else "hload_int"
+                v = self.tmp("v")
+                return self.recv_addr(inn[0], lambda r: self.hoff(r, off, lambda q: "(match %s mem %s with None => Oob | Some %s => %s end)" % (ld, q, v, k(v))))
+            if isinstance(spec0, dict) and spec0.get("event") and (spec0.get("args") or spec0.get("recv")):
+                # the event carries the receiver ({r}) and the values of the call's arguments (all, or the listed positions);
+                # the call yields spec["value"]
                 args = list(inn[1:])
+                if isinstance(spec0.get("args"), list):
+                    args = [args[i] for i in spec0["args"]]
+                elif not spec0.get("args"):
+                    args = []
 
-                def evargs(i, acc):
-                    if i == len(args):
-                        return "(let evs := evs ++ [%s] in %s)" % (spec0["event"].format(*acc), k(spec0.get("value", "0")))
-                    return self.E(args[i], lambda v: evargs(i + 1, acc + [v]))
-                return evargs(0, [])
+                def evargs(r):
+                    def go(i, acc):
+                        if i == len(args):
+                            return "(let evs := evs ++ [%s] in %s)" % (spec0["event"].format(*acc, r=r), k(spec0.get("value", "0")))
+                        return self.E(args[i], lambda v: go(i + 1, acc + [v]))
+                    return go(0, [])
+                if spec0.get("recv"):
+                    return self.recv_addr(inn[0], evargs)
+                return evargs(None)
             if isinstance(spec0, dict) and spec0.get("event"):
                 return "(let evs := evs ++ [%s] in %s)" % (spec0["event"], k(spec0.get("value", "0")))
             if isinstance(spec0, dict) and spec0.get("pop"):          # the next value of an oracle stream (a ghost list)
@@ -321,6 +337,8 @@ class HeapFn(cxx2gal.LoopFn):
                     callee = self.inner(callee)[0]
                 base = self.inner(callee)[0] if self.inner(callee) else None
                 args = list(inn[1:])
+                if isinstance(spec.get("args"), list):       # parameters of unmodelled classes are not passed on
+                    args = [args[i] for i in spec["args"]]
 
                 def with_recv(r):
                     def ev(i, acc):
@@ -334,6 +352,17 @@ class HeapFn(cxx2gal.LoopFn):
                     return self.E(base, with_recv)
                 return self.obj_addr(base, with_recv)
         return super().E(n, k)
+
+    def recv_addr(self, callee, k):
+        """the address of the object a member function is called on"""
+        while callee.get("kind") in ("ImplicitCastExpr", "ParenExpr"):
+            callee = self.inner(callee)[0]
+        base = self.inner(callee)[0] if self.inner(callee) else None
+        if base is None or base.get("kind") == "CXXThisExpr":
+            return k(self.this_var())
+        if callee.get("isArrow"):
+            return self.E(base, k)
+        return self.obj_addr(base, k)
 
     def call(self, spec, args, k):
         if isinstance(spec, str):
@@ -428,6 +457,8 @@ class HeapFn(cxx2gal.LoopFn):
                 spec = self.calls.get(self.callee_name(self.inner(n)[0]))
             except Unsupported:
                 spec = None
+            if isinstance(spec, dict) and spec.get("recv_field"):
+                flags.add("mem")
             if isinstance(spec, dict) and spec.get("method"):
                 flags.add("mem")
                 flags.add("call")
